@@ -47,6 +47,12 @@ Definition rec_of_sx (x : sx) : option rec :=
   | SL [SY "origx"; SL m] => Some (ROrigx (map get_text m))
   | SL [SY "mtrix"; SZ ser; SL m; g] => Some (RMtrix ser (map get_text m) (get_bool g))
   | SL (SY "atom" :: _) => option_map RAtom (arec_of_sx x)
+  | SL [SY "dbref"; SS chain; SZ a; ai; SZ b; bi; SS db; SS acc; SS id; SZ da; dai; SZ db2; dbi] =>
+      Some (RDbref chain (a, get_opt get_text ai, b, get_opt get_text bi) db acc id (da, get_opt get_text dai, db2, get_opt get_text dbi))
+  | SL [SY "seqadv"; SS resname; SS chain; SZ num; ins; dbres; SS comment] =>
+      Some (RSeqadv resname chain num (get_opt get_text ins)
+                    (get_opt (fun d => match d with SL [SS n; SZ k] => (n, k) | _ => ([], 0%Z) end) dbres) comment)
+  | SL [SY "modres"; SS resname; SS chain; SZ num; ins; SS std; SS comment] => Some (RModres resname chain num (get_opt get_text ins) std comment)
   | _ => None
   end.
 Definition opt_list {A} (o : option A) : list A := match o with Some a => [a] | None => [] end.
@@ -63,7 +69,16 @@ Definition run_c01 (x : sx) : sx :=
       let rs := flat_map (fun r => opt_list (rec_of_sx r)) recs in
       SL (sx_meta (denote_id rs) (denote_remarks rs) (denote_cell rs)
                   (match denote_sg rs with Some sg => Symmetry_of sg | None => None end)
-                  (denote_scale rs) (denote_origx rs) (denote_mtrix rs) ++ [sx_of_pdb sx_of_atom (denote_models rs)])%list
+                  (denote_scale rs) (denote_origx rs) (denote_mtrix rs) ++
+          [sx_of_pdb sx_of_atom (denote_annotated rs);
+           SL (map (fun x => let '(i, j, (db, acc, id), pos, dbpos, diffs) := x in
+                      let sxpos (q : Z * option text * Z * option text) := let '(a, ai, b, bi) := q in SL [SZ a; sopt SS ai; SZ b; sopt SS bi] in
+                      SL [snat i; snat j;
+                          SL [SS db; SS acc; SS id; sxpos pos; sxpos dbpos;
+                              SL (map (fun d : text * Z * option text * option (text * Z) * text =>
+                                         let '(rn, n, ins, dr, cm) := d in
+                                         SL [SS rn; SZ n; sopt SS ins; sopt (fun q : text * Z => SL [SS (fst q); SZ (snd q)]) dr; SS cm]) diffs)]])
+                   (denote_dbrefs rs))])%list
   | SL (SY "accept" :: _) => SY "accepted"
   | SL (SY "corrupt" :: _) => SY "rejected"
   | SL (SY "total" :: _) => SL [SY "classified"; SY "t"; SY "t"]
